@@ -25,6 +25,15 @@ KNOWN_FOREIGN = "forget-foreign-parent-outside-key"
 FALLBACK_ALL_LABELS = os.environ.get("VERIF_C14_FALLBACK", "1") == "1"
 
 
+# minimum share of the table-universe searches on which the extracted decider must say that the hypotheses of
+# C14_search_stored_rules_handed_back hold (set from the measured value, see extra_checks)
+MIN_COVERED = 0.7
+# the measured value quoted in the strings below (quick tier, seeds 0-2)
+F14 = "about 81%"
+F14W = "55-59%"
+MIN_COVERED_WORDS = 0.4
+
+
 # ----------------------------------------------------------------- generator
 def gen(rng, tier):
     from harness.props import c04
@@ -273,7 +282,17 @@ def _run_one(case, which, ad, queries_in=None):
     pack = ad.pack()
     start = ad.start()
     cdb = ClassDB(type(start))
-    queue = DefaultQueue(pack)
+    packets = []         # every work packet the real queue handed out: [label, [sid ...], inferral]
+
+    class RecQueue(DefaultQueue):
+        """DefaultQueue, recording what __next__ returns (do_level goes through next(self) as well)"""
+
+        def __next__(self):
+            pk = super().__next__()
+            packets.append([pk[0], [ad.sid(s_) for s_ in pk[1]], int(bool(pk[2]))])
+            return pk
+
+    queue = RecQueue(pack)
     stops = []
     in_add = [0]
     o_stop = queue.set_stop_yielding
@@ -485,7 +504,7 @@ def _run_one(case, which, ad, queries_in=None):
     classes = [ad.cls(cdb.get_class(i)) for i in range(len(cdb.comb_class_list))]
     truth = [int(ad.truly_empty(cdb.get_class(i))) for i in range(len(cdb.comb_class_list))]
     return {"steps": steps, "status": status, "exc": exc, "classes": classes, "truth": truth,
-            "live": live_answers, "spec": spec, "pops": pops,
+            "live": live_answers, "spec": spec, "pops": pops, "packets": packets,
             "root": css.start_label if css is not None and hasattr(css, "start_label") else 0,
             "iterative": int(bool(pack.iterative))}
 
@@ -539,7 +558,39 @@ def encode_with(case, res):
         steps.append([sb["pre"][0], sb["pre"][1], sb["add"], full,
                       sa.get("queries", []) if full else [],
                       sa.get("reps", []) if full else [], sb.get("reps", []) if full else [], int(sb.get("reset", 0))])
-    return [[a["root"], a["iterative"], int(FALLBACK_ALL_LABELS)], empty, strats, order, b["classes"], steps]
+    enc = [[a["root"], a["iterative"], int(FALLBACK_ALL_LABELS)], empty, strats, order, b["classes"], steps]
+    hu = _hyp_universe(case, res)
+    if hu is not None:
+        # 7th field: what the deciders of Searcher/Deciders.v need beyond the table the databases are modelled on
+        # (verification strategies, symmetries, the strategies the queue hands out, the packets it did hand out)
+        from harness.props import hyps
+
+        enc.append(hyps.extra_field(hu, a.get("packets", [])))
+    return enc
+
+
+def _hyp_universe(case, res):
+    """the table universe on which the hypotheses of C14_search_stored_rules_handed_back are evaluated: the universe
+    of a table case; for a word case the tabulation impl made (every strategy of the pack and every strategy a factory
+    yields applied to every LABELLED class and to the parents of ready rules - the very table the model of the two
+    databases runs on) completed with the real StrategyPack in the tabulation's strategy ids.  None when there is none."""
+    if case["kind"] == "table":
+        return case["u"]
+    t = res.get("table") if isinstance(res, dict) else None
+    if t and "pack" in t:
+        return t
+    return None
+
+
+def _hyp_bits(case, res):
+    """the verdict bits (harness/props/hyps.py) for the search made with RuleDB (the packets of the other search
+    are judged by the oracle)"""
+    from harness.props import hyps
+
+    hu = _hyp_universe(case, res)
+    if hu is None or "pair" not in res:
+        return None
+    return hyps.bits(hu, res["pair"][0].get("packets", []))
 
 
 def _out_of(a, b):
@@ -573,7 +624,22 @@ def impl(case):
         if case["kind"] == "words":
             cdb_classes = [ad.tab.classes[i] for i in b["classes"]]
             res["table"] = ad.tab.table(cdb_classes)
+            # the REAL StrategyPack in the tabulation's strategy ids (the `pack` dict of a table universe): what the
+            # contract predicates of c04.py / the deciders of Searcher/Deciders.v need beyond the strategy table
+            pk = ad._pack  # pylint: disable=protected-access
+            res["table"]["pack"] = {
+                "initial": [ad.tab.sid(s_) for s_ in pk.initial_strats],
+                "inferral": [ad.tab.sid(s_) for s_ in pk.inferral_strats],
+                "expansion": [[ad.tab.sid(s_) for s_ in l_] for l_ in pk.expansion_strats],
+                "ver": [ad.tab.sid(s_) for s_ in pk.ver_strats],
+                "sym": [ad.tab.sid(s_) for s_ in pk.symmetries],
+            }
             res["strategies"] = [repr(s) for s in ad.tab.strats]
+        hb = _hyp_bits(case, res)
+        if hb is not None:
+            # compared by the core with the element the extracted run_c14 appends (deciders of Searcher/Deciders.v)
+            res["hyp"] = hb
+            res["out"] = res["out"] + [hb]
         return res
     finally:
         ad.close()
@@ -680,6 +746,31 @@ def _failures(case, res):
     if a["live"] != b["live"]:
         yield "has_specification() asked during the search: %r under RuleDB, %r under RuleDBForgetStrategy" % (a["live"], b["live"])
         return
+    hb = res.get("hyp")
+    if hb:
+        # hypotheses of C14_search_stored_rules_handed_back that hold BY CONSTRUCTION on this stream: the packets come
+        # from the real DefaultQueue (packets_in is a theorem of the queue model: Searcher/QueuePack.v), and the table
+        # generators (harness/universes/table.py, table_c04.py, _foreign_via_child) let factories hide plain
+        # strategies only.  A false verdict there is a defect (queue handing out a foreign strategy / generator
+        # drift), not a case the theorem merely does not cover.  pe_contract / sym_contract are broken on purpose by
+        # the weak and wild regimes, sym_unary by table_c04's "factory used as a symmetry" (5%): tag only.
+        from harness.props import c04, hyps
+
+        owed = [n for n in hyps.missing(hb, "search") if n in ("packets_in", "items_plain")]
+        if case["kind"] != "table":
+            # word universes (tabulated): the shipped packs' symmetries preserve emptiness and are unary, no factory
+            # yields a verification strategy, and the packets come from the real queue - all four held on every word
+            # search measured; a false verdict is reported.  pe_contract is tag-only: its clause (b) fails on 41-45% of the
+            # tabulations, see ASSUMPTIONS (the tabulation applies pack strategies to labelled EMPTY classes, which the
+            # search never does).
+            owed = [n for n in hyps.missing(hb, "search") if n != "pe_contract"]
+        qp = set(c04.queue_pack(case["u"])) if case["kind"] == "table" else None
+        if qp is not None and not all(s_ in qp for pk in b.get("packets", []) for s_ in pk[1]):
+            owed.append("packets_in (RuleDBForgetStrategy search)")
+        if owed:
+            yield ("harness: %s violated, which holds by construction of the queue / the table generators "
+                   "(hypothesis of C14_search_stored_rules_handed_back)" % ", ".join(owed))
+            return
     strong = _strong(case)
     empty, _strats, order, t = _universe_of(case, res)
     classes, truth = a["classes"], a["truth"]
@@ -909,6 +1000,13 @@ def classify(case, res):
         tags.append("contracts:" + ("strong" if _strong(case) else "weaker"))
     else:
         tags.append("pack=" + case["pack"])
+    if res.get("hyp"):
+        from harness.props import hyps
+
+        tags.append(hyps.verdict_tag("C14_search_stored_rules_handed_back" + ("" if case["kind"] == "table" else "[word, tabulated]"),
+                                     res["hyp"], "search"))
+    elif "pair" in res:
+        tags.append("thm:C14_search_stored_rules_handed_back:not_evaluated(word universe)")
     if "pair" in res:
         a = res["pair"][0]
         n = len(a["steps"])
@@ -981,6 +1079,37 @@ def extra_checks(ctx):
     res.append(("insertions compared (key sets, is_verified, equivalence/queue/class database calls) / compared in full "
                 "(has_specification, contains, every stored key looked up in both databases)", nins > 0 or tot < 5,
                 "%d / %d in %d searches; %d contains queries; %d lookups" % (nins, nfull, tot, ncont, nlook)))
+    from harness.props import hyps
+
+    flags, why_not, npk = [], {}, 0
+    wflags, wwhy, wpk = [], {}, 0
+    for case, (r, _, _) in zip(ctx.cases, ctx.impl_res):
+        hb = r.get("hyp")
+        if not hb:
+            continue
+        if case["kind"] != "table":
+            wflags.append(bool(hb[0]))
+            wpk += len(r["pair"][0].get("packets", []))
+            for m in hyps.missing(hb, "search")[:1]:
+                wwhy[m] = wwhy.get(m, 0) + 1
+            continue
+        flags.append(bool(hb[0]))
+        npk += len(r["pair"][0].get("packets", []))
+        for m in hyps.missing(hb, "search")[:1]:
+            why_not[m] = why_not.get(m, 0) + 1
+    nword = sum(1 for c, (r, _, _) in zip(ctx.cases, ctx.impl_res) if c["kind"] != "table" and "pair" in r and not r.get("hyp"))
+    res.append(hyps.coverage_check(
+        "C14_search_stored_rules_handed_back", flags, MIN_COVERED, "table-universe searches",
+        "not covered because of: %s; verdict = search_hyps_b of the extracted run_c14 on the table and the %d packets "
+        "the real queue handed out, equal to the Python predicates on every case (part of the compared output); "
+        "%d word-universe searches without a tabulation: hypotheses not evaluated" % (why_not or "-", npk, nword)))
+    res.append(hyps.coverage_check(
+        "C14_search_stored_rules_handed_back", wflags, MIN_COVERED_WORDS, "word-universe searches (tabulated)",
+        "not covered because of: %s; verdict = search_hyps_b of the extracted run_c14 on the TABULATION of the word "
+        "search (harness/universes/words_c14.py Tabulator: pack strategies and what factories yield applied to the "
+        "labelled classes and the parents of ready rules) with the real StrategyPack's initial / inferral / expansion / "
+        "verification / symmetry lists and the %d packets the real queue handed out, equal to the Python predicates on "
+        "every case" % (wwhy or "-", wpk)))
     res.append(("information: RecomputingDict lookups", True,
                 "%d could not recompute (recorded limitation, foreign parents); %d handed back another strategy than the "
                 "stored one (both reproduce the rule); %d gave a NEW label to a class the searcher never saw, %d filled the "
@@ -1010,7 +1139,10 @@ RULE = (
 )
 TECHNIQUE = ("Coq proof over an executable store-generic model of the two databases (induction over arbitrary histories) + "
              "extracted-model/implementation correspondence on real searches (stored keys, equivalence-database and queue "
-             "calls, emptiness cache after every insertion; has_specification / contains / lookups at sampled insertions)")
+             "calls, emptiness cache after every insertion; has_specification / contains / lookups at sampled insertions); "
+             "the table hypotheses of the composed theorem C14_search_stored_rules_handed_back are decided per "
+             "table-universe case by an extracted decider (verdict compared with the harness's predicates on every such "
+             "case; covered fraction reported and enforced)")
 TRUSTED = [
     "modelled, not verified: rule_db/base.py (RuleDBBase.add, _clean_labels, contains, __iter__; RuleDB's dicts) and "
     "rule_db/forget.py (RecomputingDict: _flatten/_unflatten, __getitem__, __setitem__, __delitem__, __contains__, "
@@ -1035,6 +1167,32 @@ ASSUMPTIONS = [
     "of a class can change between storing and looking up, in both databases alike",
     "C14_search_stored_rules_handed_back additionally assumes that no factory item names a verification strategy "
     "(twoway_faithful) and covers own-parent rules only (a factory rule with a foreign parent: the known finding)",
+    "the table hypotheses of C14_search_stored_rules_handed_back (pe_contract, sym_contract, sym_unary, items_plain => "
+    "twoway_faithful) and packets_in are DECIDED on every table-universe case: the extracted run_c14 evaluates "
+    "search_hyps_b (Searcher/Deciders.v, sound by search_hyps_sound; C14_search_stored_rules_handed_back_decided "
+    "restates the theorem over it) on the table of the case and on the packets the real DefaultQueue handed out "
+    "(recorded by a subclass of the queue); the plugin computes the same bits with c04.py's predicates and the two are "
+    "part of the compared output. The theorem covers a table-universe case only where the verdict is true: " + F14 +
+    " of the table-universe searches (quick tier, seeds 0-2; extra_checks fails below 70%); the others break pe_contract "
+    "(weak / wild emptiness regimes, most of them), sym_contract or sym_unary (a factory used as a symmetry) on purpose "
+    "and exercise robustness only. packets_in and items_plain hold by construction (real queue; factories hide plain "
+    "strategies only): a false verdict there is an oracle failure. WORD universes (30% of the cases): the same deciders "
+    "are evaluated on the TABULATION of the word search (the table the database models run on: every pack strategy "
+    "and every strategy a factory yields applied to every labelled class and to the parents of ready rules) completed "
+    "with the real StrategyPack's initial / inferral / expansion / verification / symmetry lists in the tabulation's "
+    "strategy ids and the packets of the real queue; verdicts of Coq and Python are compared on every word case. "
+    "Covered: " + F14W + " of the word searches (extra_checks fails below 40%). The ONLY failing hypothesis is clause (b) of "
+    "pe_contract (a possibly_empty=False strategy whose rules go through add_rule has no empty child on an EMPTY class "
+    "either): the tabulation applies every pack strategy to every labelled class, also to labelled classes that are "
+    "empty, and the example's decomposition strategies declared possibly_empty=False (RemoveFrontOfPrefix, "
+    "SwapLettersOneWay, RemoveFrontLetterwise, PermuteLettersOneWay) split an empty class into empty children; clause "
+    "(a) (non-empty parent) never failed, and in 120 replayed word searches the real queue never handed out a packet "
+    "for an empty class, i.e. the search never makes the offending applications - the hypothesis of the theorem is "
+    "stronger than what these searches need, so those cases are NOT covered by it (tag only); sym_contract, sym_unary, "
+    "items_plain and packets_in held on every word case and a false verdict on one of them is an oracle failure. "
+    "_strong(case) still answers True for every word case without looking (the oracle demands reproduction there "
+    "whatever the pe_contract verdict of the tabulation); no check runs the searcher model on a "
+    "tabulated word search, so the composed theorem reaches a word search only modulo the trusted Tabulator",
 ]
 LEVEL_TEXT = (
     "Theorems C14_* (coq/theories/Props/C14.v, all closed under the global context) over RuleDB/Model.v: ONE database "
@@ -1068,6 +1226,13 @@ LEVEL_TEXT = (
     "time and, in the state the run is in now, RuleDBForgetStrategy hands back a reproducing strategy for the key of "
     "that call from any store still holding it, if a pack strategy produces the rule on its own parent (extra table "
     "hypotheses: symmetry rules are unary, no factory item names a verification strategy); "
+    "C14_search_stored_rules_handed_back_decided: the same with ALL table hypotheses and packets_in replaced by "
+    "search_hyps_b T pack ps = true (Searcher/Deciders.v), the boolean the extracted run_c14 evaluates on every "
+    "table-universe case (table of the case, packets of the real queue; compared with the plugin's Python verdict by "
+    "the core's diff) - the composed theorem covers exactly the cases where it is true: " + F14 + " of the "
+    "table-universe searches (tags thm:C14_search_stored_rules_handed_back:*, extra check covered_by_theorem) and " + F14W +
+    " of the word-universe searches (evaluated on their tabulation with the real pack; the rest fail clause (b) of "
+    "pe_contract on labelled empty classes the search never expands); "
     "C14_searcher_model_uses_dict_store: one ruledb.add of the C04 searcher model and of this model do "
     "the same to class database and key sets (the one-step lemma the composition iterates). "
     "C14_every_stored_rule_handed_back_refuted: the unconditional statement is FALSE (rule "
@@ -1079,7 +1244,10 @@ LEVEL_TEXT = (
     "at SAMPLED insertions only (every insertion in 35% of the quick cases, else every 2nd-5th + first two + last) "
     "has_specification, contains queries and every stored key looked up in both databases with the strategy "
     "re-applied; an independent Python oracle checks the property statement on the two real databases - reproduction "
-    "only for universes honouring the contracts (c04.strong_contract = Coq contractsb, + unary symmetry rules) and "
+    "only for TABLE universes honouring the contracts (c04.strong_contract = Coq contractsb, + unary symmetry rules; "
+    "the same bits the extracted deciders print for the case) - for word universes reproduction is demanded whatever "
+    "the verdict of their tabulation (only pe_contract clause (b) ever fails there, on applications the search never "
+    "makes) - and "
     "non-empty parents; in a case where the known finding is hit, nothing after the first hit is examined by the oracle."
 )
 LEVEL_NOTE = (
